@@ -353,3 +353,106 @@ def extra_c01(prop, tier, seed, profiles):
 
 PLANS["C01"]["extra"] = extra_c01
 PLANS["C01"]["floors"] = {"quick": dict(TL_FLOORS["quick"], **{"spec-determined-fields": 2000})}
+
+
+# ---------------------------------------------------------------------------------------------------
+# animator properties
+
+def extra_c07(prop, tier, seed, profiles):
+    """On the implementation alone: is_ended is monotone between state changes, true iff no timeline or
+    time >= duration is what the model comparison covers; once ended, values rest (checked on dyadic
+    configurations, where no float rounding separates `t >= duration()` from the terminal position)."""
+    n = 300 if tier == "quick" else 15000
+    path = os.path.join(P.WORK, prop, f"oracle.{tier}.ops")
+    os.makedirs(os.path.dirname(path), exist_ok=True)
+    P.gen_ops("anim", seed + 707, n, path)
+    out = path[:-4] + ".impl"
+    P.run_stream(P.harness_bin(profiles[0]), ["run"], path, out)
+    ops, impl = P.read_lines(path), P.read_lines(out)
+    fails, checked = [], 0
+    exact, prev = False, None
+    hist = {"ended-seen": 0, "rest-checked": 0}
+    for L, (op, o) in enumerate(zip(ops, impl)):
+        w = op.split(" ")
+        if w[0] == "reset": exact, prev = False, None
+        elif op == "# exactcfg": exact = True
+        elif w[0] in ("anim", "set"): prev = None if o.startswith(("panic", "bad")) else (o, L)
+        elif w[0] == "adv" and w[1] == "0":
+            if o.startswith(("panic", "bad")): prev = None; continue
+            vals, meta = o.split(" | ")
+            ended = meta.split(" ")[1] == "1"
+            if ended: hist["ended-seen"] += 1
+            if prev is not None:
+                pv, pm = prev[0].split(" | ")
+                pended = pm.split(" ")[1] == "1"
+                if pended:
+                    checked += 1
+                    if not ended:
+                        fails.append(dict(line=L, directive="relational ended stays true under further advances", op=op, got=o, want=prev[0], ops=P.block_of(ops, L)))
+                    elif exact:
+                        hist["rest-checked"] += 1
+                        if vals != pv:
+                            fails.append(dict(line=L, directive="relational values rest once ended", op=op, got=o, want=prev[0], ops=P.block_of(ops, L)))
+            prev = (o, L)
+    return dict(checked=checked, fails=fails, evaluations=checked, hist=hist)
+
+
+ANIM_FLOORS = {"quick": {"op:adv": 800, "op:set": 300, "op:anim": 100}}
+PLANS["C04"] = dict(suites=[Suite("anim", 500, 30000)], floors=ANIM_FLOORS,
+                    assumptions=["blend law of each timeline (BlendOK): built-in easings, per-property distinct keyframe positions, values exactly representable in f32 — the property's own hypotheses"])
+PLANS["C05"] = dict(suites=[Suite("anim", 500, 30000)], floors=ANIM_FLOORS,
+                    assumptions=["internal time and pause record observed through the verif-hooks snapshot"])
+PLANS["C06"] = dict(suites=[Suite("anim6", 250, 15000), Suite("anim", 200, 8000)], floors={"quick": {"op:adv": 1500, "op:set": 200}},
+                    assumptions=["StableWrites: the set of slots a timeline writes does not depend on time (true of built timelines)"])
+PLANS["C07"] = dict(suites=[Suite("anim", 500, 30000), Suite("merged", 100, 4000)], floors=ANIM_FLOORS, extra=extra_c07,
+                    assumptions=["values-rest is stated for every component strictly past its end; at the end instant itself the position already equals the terminal one (C02.at_total_position)"])
+PLANS["C07"]["floors"] = {"quick": dict(ANIM_FLOORS["quick"], **{"ended-seen": 200, "rest-checked": 50})}
+
+
+def extra_c05(prop, tier, seed, profiles):
+    """The documented rules as a tiny abstract machine (current state, nanoseconds in state, remembered
+    pause), run in Python next to the implementation's observable state + verif-hooks snapshot."""
+    n = 300 if tier == "quick" else 15000
+    path = os.path.join(P.WORK, prop, f"oracle.{tier}.ops")
+    os.makedirs(os.path.dirname(path), exist_ok=True)
+    P.gen_ops("anim", seed + 505, n, path)
+    out = path[:-4] + ".impl"
+    P.run_stream(P.harness_bin(profiles[0]), ["run"], path, out)
+    ops, impl = P.read_lines(path), P.read_lines(out)
+    fails, checked = [], 0
+    st = None
+    for L, (op, o) in enumerate(zip(ops, impl)):
+        w = op.split(" ")
+        if w[0] == "reset": st = None
+        elif w[0] == "anim" and w[1] == "0":
+            nstates = int(w[3])
+            animated = [t != "-" for t in w[-nstates:]]
+            st = dict(cur=int(w[4]), ns=0, paused=None, animated=animated)
+        elif st is not None and w[0] in ("adv", "set") and w[1] == "0":
+            if o.startswith(("panic", "bad")): st = None; continue
+            if w[0] == "adv":
+                q = Fraction(f32(w[2])) * 1000000000
+                fl = q.numerator // q.denominator
+                r = q - fl
+                ns = fl + (1 if (r > Fraction(1, 2) or (r == Fraction(1, 2) and fl % 2 == 1)) else 0)
+                st["ns"] += ns
+            else:
+                s = int(w[2])
+                if s != st["cur"]:
+                    if st["paused"] is not None and st["paused"][0] == s:
+                        st["cur"], st["ns"] = s, st["paused"][1]
+                    else:
+                        was, will = st["animated"][st["cur"]], st["animated"][s]
+                        if was and not will: st["paused"] = (st["cur"], st["ns"])
+                        elif will: st["paused"] = None
+                        st["cur"], st["ns"] = s, 0
+            meta = o.split(" | ")[1].split(" ")
+            want = [str(st["cur"]), meta[1], str(st["ns"]), "-" if st["paused"] is None else f"{st['paused'][0]}@{st['paused'][1]}"]
+            checked += 1
+            if meta != want:
+                fails.append(dict(line=L, directive="spec documented blend/pause/resume rules (state, ns in state, remembered pause)", op=op, got=" ".join(meta), want=" ".join(want), ops=P.block_of(ops, L)))
+                st = None
+    return dict(checked=checked, fails=fails, evaluations=checked)
+
+
+PLANS["C05"]["extra"] = extra_c05
